@@ -25,10 +25,17 @@ def run(ctx):
     ctx.rule("C04.R2", "K5/K1", "worker SIGTERM handler only clears `alive`; SIGTERM does not interrupt system calls")
     ctx.rule("C04.R3", "K6", "every worker run loop tests `alive`, drains within cfg.graceful_timeout; no `alive` test can abandon a request already read")
     ctx.rule("C04.R4", "K4", "close_sockets closes every listener and unlinks a unix path iff asked")
+    ctx.rule("C04.R5", "K1/K5", "(= C17.R3/R4) the pid file is removed at exit: owner-checked unlink, arbiter call discipline (reload releases the old file before creating the new one)")
     r1(ctx)
     r2(ctx)
     r3(ctx)
     r4(ctx)
+    # the pid file is part of "leaves nothing behind": the arbiter's pid-file discipline (C17.R3/R4) under this property
+    from . import c17
+    from .common import MultiAlias
+    a = MultiAlias(ctx, {"C17.R3": "C04.R5", "C17.R4": "C04.R5"})
+    c17.r3(a)
+    c17.r4(a)
 
 
 def r1(ctx):
